@@ -1084,6 +1084,21 @@ class SVG:
         for el in el_to_rm:
             _remove_ignored(el)
 
+        # character data directly inside a container, shape or paint server element is not
+        # rendered (it means something only inside text content elements)
+        no_text_tags = {
+            f"{{{svgns()}}}{tag}"
+            for tag in ("svg", "g", "defs", "symbol", "use", "clipPath", "stop")
+            + tuple(strip_ns(t) for t in _SHAPE_CLASSES)
+            + tuple(_GRADIENT_CLASSES)
+        }
+        for el in self.svg_root.iter(*no_text_tags):
+            if el.text and el.text.strip():
+                el.text = None
+            for child in el:
+                if child.tail and child.tail.strip():
+                    child.tail = None
+
         # Make svg default; destroy anything unexpected
         good_nsmap = {
             None: svgns(),
